@@ -2,6 +2,7 @@ import ServiceModel.Proofs.Reachable
 import ServiceModel.Proofs.Deposit
 import ServiceModel.Proofs.MonitorSound
 import ServiceModel.Proofs.ModSvc
+import ServiceModel.Proofs.RestartStable
 /-!
 # C03 — Binding deposits stay in custody and leave only by the rules
 -/
@@ -128,5 +129,18 @@ theorem deposit_backed_after_module_service_call {cfg : Config} {p : Params} {h0
     (callMod s id svc prov cons cap inputOk code out).1.bal (callMod s id svc prov cons cap inputOk code out).1.cfg.deposit =
       depositSum (callMod s id svc prov cons cap inputOk code out).1 :=
   (callMod_invB s id svc prov cons cap inputOk code out (reachable_inv hc hr) hcons).backed
+
+/-- The same on chains that go through any number of zero-height restarts: the deposit account holds exactly the
+    recorded deposits in every state, and a restart itself leaves every recorded deposit — and the deposit account —
+    as it was (the preparation moves coins of the request escrow only). -/
+theorem deposit_backed_across_restarts {cfg : Config} {p : Params} {h0 t0 : Int} (hc : CfgOK cfg p) {s : State}
+    (hr : ReachableR cfg p h0 t0 s) :
+    s.bal s.cfg.deposit = depositSum s ∧
+    ∀ height time s', restart s height time = some s' →
+      (∀ k, Map.get s'.bindings k = Map.get s.bindings k) ∧ s'.bal s'.cfg.deposit = depositSum s' := by
+  refine ⟨(reachableR_invAll hc hr).inv.b.backed, ?_⟩
+  intro height time s' hre
+  obtain ⟨h1, h2⟩ := restart_sameRecords (reachableR_invAll hc hr) hre
+  exact ⟨h1.bindings, h2.inv.b.backed⟩
 
 end SM.C03
